@@ -1,6 +1,7 @@
 package main
 
 import (
+	"sync"
 	"fmt"
 	"go/constant"
 	"go/token"
@@ -10,9 +11,55 @@ import (
 	"golang.org/x/tools/go/ssa"
 )
 
+type fnInfo struct {
+	idx map[ssa.Value]int32
+	n   int
+}
+
+var fnInfos sync.Map // *ssa.Function -> *fnInfo
+
+type unsetT struct{}
+
+var unsetReg Value = &unsetT{}
+
+func infoOf(fn *ssa.Function) *fnInfo {
+	if v, ok := fnInfos.Load(fn); ok {
+		return v.(*fnInfo)
+	}
+	fi := &fnInfo{idx: map[ssa.Value]int32{}}
+	for _, p := range fn.Params {
+		fi.idx[p] = int32(fi.n)
+		fi.n++
+	}
+	for _, b := range fn.Blocks {
+		for _, ins := range b.Instrs {
+			if v, ok := ins.(ssa.Value); ok {
+				fi.idx[v] = int32(fi.n)
+				fi.n++
+			}
+		}
+	}
+	v, _ := fnInfos.LoadOrStore(fn, fi)
+	return v.(*fnInfo)
+}
+
+func newFrame(fn *ssa.Function, env []Value) *frame {
+	fi := infoOf(fn)
+	fr := &frame{fn: fn, info: fi, regs: make([]Value, fi.n), env: env}
+	for i := range fr.regs {
+		fr.regs[i] = unsetReg
+	}
+	return fr
+}
+
+func (fr *frame) set(v ssa.Value, x Value) {
+	fr.regs[fr.info.idx[v]] = x
+}
+
 type frame struct {
 	fn     *ssa.Function
-	locals map[ssa.Value]Value
+	info   *fnInfo
+	regs   []Value
 	env    []Value
 	block  *ssa.BasicBlock
 	prev   *ssa.BasicBlock
@@ -78,8 +125,10 @@ func (ex *Exec) get(fr *frame, v ssa.Value) Value {
 			}
 		}
 	}
-	if r, ok := fr.locals[v]; ok {
-		return r
+	if i, ok := fr.info.idx[v]; ok {
+		if r := fr.regs[i]; r != unsetReg {
+			return r
+		}
 	}
 	panic(fmt.Sprintf("get: no value for %s (%T) in %s", v.Name(), v, fr.fn))
 }
@@ -130,7 +179,7 @@ func (ex *Exec) ensureInit(p *ssa.Package) {
 			}
 		}
 	}()
-	fr := &frame{fn: fn, locals: map[ssa.Value]Value{}}
+	fr := newFrame(fn, nil)
 	ex.run(fr)
 }
 
@@ -512,9 +561,9 @@ func (ex *Exec) callFn(fn *ssa.Function, args []Value, env []Value, site string)
 	if ex.depth > ex.sh.cfg.MaxDepth {
 		panic(pathAbort{"unwind: call depth at " + name})
 	}
-	fr := &frame{fn: fn, locals: make(map[ssa.Value]Value, 16), env: env}
+	fr := newFrame(fn, env)
 	for i, p := range fn.Params {
-		fr.locals[p] = args[i]
+		fr.set(p, args[i])
 	}
 	r := ex.run(fr)
 	ex.depth--
@@ -657,39 +706,39 @@ func (ex *Exec) exec(fr *frame, ins ssa.Instruction) {
 	case *ssa.DebugRef:
 	case *ssa.Alloc:
 		p := ex.alloc(in.Type().(*types.Pointer).Elem(), ex.pos2(in))
-		fr.locals[in] = p
+		fr.set(in, p)
 	case *ssa.Phi:
 		for i, pred := range fr.block.Preds {
 			if pred == fr.prev {
-				fr.locals[in] = ex.get(fr, in.Edges[i])
+				fr.set(in, ex.get(fr, in.Edges[i]))
 				break
 			}
 		}
 	case *ssa.BinOp:
-		fr.locals[in] = ex.binop(in.Op, ex.get(fr, in.X), ex.get(fr, in.Y), in.X.Type(), ex.pos2(in))
+		fr.set(in, ex.binop(in.Op, ex.get(fr, in.X), ex.get(fr, in.Y), in.X.Type(), ex.pos2(in)))
 	case *ssa.UnOp:
 		x := ex.get(fr, in.X)
 		switch in.Op {
 		case token.MUL:
-			fr.locals[in] = ex.load(x.(Ptr), ex.pos2(in))
+			fr.set(in, ex.load(x.(Ptr), ex.pos2(in)))
 		case token.NOT:
 			switch b := x.(type) {
 			case bool:
-				fr.locals[in] = !b
+				fr.set(in, !b)
 			case *Term:
-				fr.locals[in] = lower(mkNot(b))
+				fr.set(in, lower(mkNot(b)))
 			}
 		case token.SUB:
 			switch v := x.(type) {
 			case int64:
-				fr.locals[in] = wrapInt(-v, in.Type())
+				fr.set(in, wrapInt(-v, in.Type()))
 			case float64:
-				fr.locals[in] = -v
+				fr.set(in, -v)
 			default:
 				panic(pathAbort{"unsupported: symbolic negation"})
 			}
 		case token.XOR:
-			fr.locals[in] = wrapInt(^x.(int64), in.Type())
+			fr.set(in, wrapInt(^x.(int64), in.Type()))
 		default:
 			panic(pathAbort{"unsupported: unop " + in.Op.String()})
 		}
@@ -701,9 +750,9 @@ func (ex *Exec) exec(fr *frame, ins ssa.Instruction) {
 			panic(goPanic{"nil pointer dereference (field)", ex.pos2(in)})
 		}
 		s := (*p.C).(Struct)
-		fr.locals[in] = Ptr{C: &s[in.Field], O: p.O}
+		fr.set(in, Ptr{C: &s[in.Field], O: p.O})
 	case *ssa.Field:
-		fr.locals[in] = copyVal(ex.get(fr, in.X).(Struct)[in.Field])
+		fr.set(in, copyVal(ex.get(fr, in.X).(Struct)[in.Field]))
 	case *ssa.IndexAddr:
 		x := ex.get(fr, in.X)
 		i := ex.concreteInt(ex.get(fr, in.Index))
@@ -712,7 +761,7 @@ func (ex *Exec) exec(fr *frame, ins ssa.Instruction) {
 			if i < 0 || i >= c.Len {
 				panic(goPanic{fmt.Sprintf("index out of range [%d] with length %d", i, c.Len), ex.pos2(in)})
 			}
-			fr.locals[in] = Ptr{C: &c.Arr[c.Off+i], O: c.O}
+			fr.set(in, Ptr{C: &c.Arr[c.Off+i], O: c.O})
 		case Ptr: // pointer to array
 			if c.IsNil() {
 				panic(goPanic{"nil pointer dereference (index)", ex.pos2(in)})
@@ -721,7 +770,7 @@ func (ex *Exec) exec(fr *frame, ins ssa.Instruction) {
 			if i < 0 || i >= len(a) {
 				panic(goPanic{"index out of range", ex.pos2(in)})
 			}
-			fr.locals[in] = Ptr{C: &a[i], O: c.O}
+			fr.set(in, Ptr{C: &a[i], O: c.O})
 		default:
 			panic(fmt.Sprintf("indexaddr %T", x))
 		}
@@ -730,17 +779,17 @@ func (ex *Exec) exec(fr *frame, ins ssa.Instruction) {
 		i := ex.concreteInt(ex.get(fr, in.Index))
 		switch c := x.(type) {
 		case Array:
-			fr.locals[in] = copyVal(c[i])
+			fr.set(in, copyVal(c[i]))
 		case string:
 			if i < 0 || i >= len(c) {
 				panic(goPanic{"index out of range (string)", ex.pos2(in)})
 			}
-			fr.locals[in] = int64(c[i])
+			fr.set(in, int64(c[i]))
 		default:
 			panic(pathAbort{fmt.Sprintf("unsupported: index on %T", x)})
 		}
 	case *ssa.Slice:
-		fr.locals[in] = ex.sliceOp(fr, in)
+		fr.set(in, ex.sliceOp(fr, in))
 	case *ssa.MakeSlice:
 		n := ex.concreteInt(ex.get(fr, in.Len))
 		c := ex.concreteInt(ex.get(fr, in.Cap))
@@ -749,9 +798,9 @@ func (ex *Exec) exec(fr *frame, ins ssa.Instruction) {
 		for i := range arr {
 			arr[i] = ex.zero(et)
 		}
-		fr.locals[in] = Slice{Arr: arr, Len: n, Cap: c, O: ex.newObj(ex.pos2(in))}
+		fr.set(in, Slice{Arr: arr, Len: n, Cap: c, O: ex.newObj(ex.pos2(in))})
 	case *ssa.MakeMap:
-		fr.locals[in] = &Map{O: ex.newObj(ex.pos2(in))}
+		fr.set(in, &Map{O: ex.newObj(ex.pos2(in))})
 	case *ssa.MapUpdate:
 		m := ex.get(fr, in.Map).(*Map)
 		if m == nil {
@@ -787,16 +836,16 @@ func (ex *Exec) exec(fr *frame, ins ssa.Instruction) {
 				v = ex.zero(mt.Elem())
 			}
 			if in.CommaOk {
-				fr.locals[in] = Tuple{v, i >= 0}
+				fr.set(in, Tuple{v, i >= 0})
 			} else {
-				fr.locals[in] = v
+				fr.set(in, v)
 			}
 		case string:
 			i := ex.concreteInt(ex.get(fr, in.Index))
 			if i < 0 || i >= len(m) {
 				panic(goPanic{"index out of range (string)", ex.pos2(in)})
 			}
-			fr.locals[in] = int64(m[i])
+			fr.set(in, int64(m[i]))
 		default:
 			panic(pathAbort{fmt.Sprintf("unsupported: lookup on %T", x)})
 		}
@@ -814,10 +863,10 @@ func (ex *Exec) exec(fr *frame, ins ssa.Instruction) {
 					it.Entries = ex.permute(it.Entries)
 				}
 			}
-			fr.locals[in] = it
+			fr.set(in, it)
 		case string:
 			s := m
-			fr.locals[in] = &MapIter{Str: &s}
+			fr.set(in, &MapIter{Str: &s})
 		default:
 			panic(pathAbort{fmt.Sprintf("unsupported: range over %T", x)})
 		}
@@ -826,11 +875,11 @@ func (ex *Exec) exec(fr *frame, ins ssa.Instruction) {
 		if it.Str != nil {
 			s := *it.Str
 			if it.Pos >= len(s) {
-				fr.locals[in] = Tuple{false, int64(0), int64(0)}
+				fr.set(in, Tuple{false, int64(0), int64(0)})
 			} else {
 				for i, r := range s[it.Pos:] {
 					_ = i
-					fr.locals[in] = Tuple{true, int64(it.Pos), int64(r)}
+					fr.set(in, Tuple{true, int64(it.Pos), int64(r)})
 					it.Pos += len(string(r))
 					break
 				}
@@ -838,28 +887,28 @@ func (ex *Exec) exec(fr *frame, ins ssa.Instruction) {
 			break
 		}
 		if it.Pos >= len(it.Entries) {
-			fr.locals[in] = Tuple{false, nil, nil}
+			fr.set(in, Tuple{false, nil, nil})
 		} else {
 			e := it.Entries[it.Pos]
 			it.Pos++
-			fr.locals[in] = Tuple{true, copyVal(e.K), copyVal(e.V)}
+			fr.set(in, Tuple{true, copyVal(e.K), copyVal(e.V)})
 		}
 	case *ssa.Extract:
-		fr.locals[in] = ex.get(fr, in.Tuple).(Tuple)[in.Index]
+		fr.set(in, ex.get(fr, in.Tuple).(Tuple)[in.Index])
 	case *ssa.MakeClosure:
 		env := make([]Value, len(in.Bindings))
 		for i, b := range in.Bindings {
 			env[i] = ex.get(fr, b)
 		}
-		fr.locals[in] = &Closure{Fn: in.Fn.(*ssa.Function), Env: env}
+		fr.set(in, &Closure{Fn: in.Fn.(*ssa.Function), Env: env})
 	case *ssa.MakeInterface:
-		fr.locals[in] = Iface{T: in.X.Type(), V: ex.get(fr, in.X)}
+		fr.set(in, Iface{T: in.X.Type(), V: ex.get(fr, in.X)})
 	case *ssa.ChangeInterface:
-		fr.locals[in] = ex.get(fr, in.X)
+		fr.set(in, ex.get(fr, in.X))
 	case *ssa.ChangeType:
-		fr.locals[in] = ex.get(fr, in.X)
+		fr.set(in, ex.get(fr, in.X))
 	case *ssa.Convert:
-		fr.locals[in] = ex.convert(ex.get(fr, in.X), in.X.Type(), in.Type())
+		fr.set(in, ex.convert(ex.get(fr, in.X), in.X.Type(), in.Type()))
 	case *ssa.TypeAssert:
 		x := ex.get(fr, in.X).(Iface)
 		ok := false
@@ -881,15 +930,15 @@ func (ex *Exec) exec(fr *frame, ins ssa.Instruction) {
 			v = ex.zero(in.AssertedType)
 		}
 		if in.CommaOk {
-			fr.locals[in] = Tuple{v, ok}
+			fr.set(in, Tuple{v, ok})
 		} else {
 			if !ok {
 				panic(goPanic{"interface conversion failed", ex.pos2(in)})
 			}
-			fr.locals[in] = v
+			fr.set(in, v)
 		}
 	case *ssa.Call:
-		fr.locals[in] = ex.call(fr, in.Common(), ex.pos2(in))
+		fr.set(in, ex.call(fr, in.Common(), ex.pos2(in)))
 	case *ssa.Defer:
 		cc := in.Common()
 		args := ex.evalArgs(fr, cc)
